@@ -76,9 +76,10 @@ def gen_decoder_inputs(ck, encodings):
         for t in itertools.product(range(256), repeat=n):
             ins.append(bytes(t))
     if ck.tier == "thorough":
-        for t in itertools.product(range(256), repeat=3):
-            ins.append(bytes(t))
-    else:
+        for first in (0x00, 0x7f, 0x80, 0x81, 0xbf, 0xc0, 0xdf, 0xe0, 0xef, 0xf0, 0xf7, 0xf8, 0xfb, 0xfc, 0xfe, 0xff):
+            for t in itertools.product(range(256), repeat=2):
+                ins.append(bytes((first,) + t))
+    if True:
         alpha = [0x00, 0x01, 0x7f, 0x80, 0x81, 0x82, 0xbf, 0xc0, 0xc1, 0xdf, 0xe0, 0xef, 0xf0, 0xf7, 0xf8, 0xfb, 0xfc, 0xfd, 0xfe, 0xff, 0x41, 0x03, 0x40]
         for t in itertools.product(alpha, repeat=3):
             ins.append(bytes(t))
@@ -199,7 +200,7 @@ def run(ck):
     ck.cov["evaluations"] = 4 * len(values) + len(encodings) + 4 * len(dins)
     ck.cov["distinct_nontrivial"] = len(set(values)) + len(dins)
     ck.cov["rule"] = ("values: one atom per length class and boundary of the format x fill pattern, random trees, deep spines; "
-                      "decoder inputs: every byte string of length <=2 (<=3 in thorough), alphabet^3/^4 of prefix bytes, every prefix class with explicit size bytes x payload lengths, "
+                      "decoder inputs: every byte string of length <=2 (thorough: also every 3-byte string led by a prefix-class boundary byte), alphabet^3/^4 of prefix bytes, every prefix class with explicit size bytes x payload lengths, "
                       "truncations at every offset / flipped prefix bits / trailing garbage / random mutations of valid encodings; distinct = distinct byte strings")
     ck.cov["samples"] = [values[3][:80], values[-1][:120], dins[700].hex(), dins[-1][:40].hex()]
     ck.cov["value_classes"] = classes
